@@ -132,10 +132,13 @@ Definition encode_byte (v : pyval) : wres bytes :=
   | _ => WErr WRemoting
   end.
 
-(* decode_modes (protocol.py:258-271): '#' and '$' give None, otherwise the
-   first character decides *)
+(* decode_modes (protocol.py): '#' and '$' give None, otherwise the token must be
+   exactly the code of one mode *)
 Definition mode_of_char (c : ascii) : option mode :=
   find (fun m => bytes_eqb (mode_value m) [c]) all_modes.
+
+Definition mode_of_token (t : bytes) : option mode :=
+  find (fun m => bytes_eqb (mode_value m) t) all_modes.
 
 Inductive dres (A : Type) := DOk (a : A) | DErr (msg : bytes).
 Arguments DOk {A} a.
@@ -143,12 +146,9 @@ Arguments DErr {A} msg.
 
 Definition decode_modes (t : bytes) : dres (option mode) :=
   if bytes_eqb t null_value || bytes_eqb t empty_value then DOk None
-  else match t with
-       | c :: _ => match mode_of_char c with
-                   | Some m => DOk (Some m)
-                   | None => DErr (bs "Unknown mode '" ++ [c] ++ bs "' found")
-                   end
-       | [] => DErr (bs "Unknown mode '' found")
+  else match mode_of_token t with
+       | Some m => DOk (Some m)
+       | None => DErr (bs "Unknown mode '" ++ t ++ bs "' found")
        end.
 
 (* decode_mobile_platform_type (protocol.py:274-284) *)
